@@ -311,7 +311,10 @@ class Native:
         self.d = None
 
 
-NATIVE = {n: Native(n) for n in ('position', 'all', 'any', 'count', 'find', 'next', 'comb')}
+NATIVE = {n: Native(n) for n in ('position', 'all', 'any', 'count', 'find', 'next', 'comb', 'wparse')}
+# winnow's ASCII class parsers: name -> (byte class, minimum count)
+W_CLASS = {'multispace0': (frozenset(b' \t\r\n'), 0), 'multispace1': (frozenset(b' \t\r\n'), 1),
+           'space0': (frozenset(b' \t'), 0), 'space1': (frozenset(b' \t'), 1)}
 OPTION = 'std::option::Option'
 
 
@@ -343,8 +346,9 @@ class Outcome:
 
 
 class Scanner:
-    def __init__(self, crate, body, dfa, max_states=60000, follow=None):
+    def __init__(self, crate, body, dfa, max_states=60000, follow=None, mode='name'):
         self.crate, self.body, self.dfa = crate, body, dfa
+        self.mode = mode      # 'name': returns the scanned name; 'skip': consumes a prefix of the input (white space, comments)
         # bytes that may legally follow a name in a text of the grammar (the run of name bytes ends there); default: everything outside the alphabet
         self.follow = frozenset(follow) - dfa.alphabet if follow is not None else ALL - dfa.alphabet
         self.max_states = max_states
@@ -555,6 +559,10 @@ class Scanner:
                 return self.promoted(st.frames[fi][0], op)
             if 'fn' in op:
                 return ('fn', op['fn'])
+            if isinstance(op.get('bytes'), list):
+                return ('rv', ('cbytes', tuple(op['bytes'])))
+            if isinstance(op.get('str'), str):
+                return ('rv', ('cbytes', tuple(op['str'].encode())))
             if ty == 'bool':
                 return ('bool', bool(op.get('val')) if 'val' in op else op.get('s') == 'true')
             if ty == 'u8' and 'val' in op:
@@ -744,7 +752,7 @@ class Scanner:
             raise Unsupported('discriminant of %r' % (v[:1],))
         if k == 'cast':
             a = self.operand(st, fi, rv['op'])
-            if a[0] in ('byte', 'bconst', 'int', 'slice', 'opaque', 'ref', 'byteref', 'fn'):
+            if a[0] in ('byte', 'bconst', 'int', 'slice', 'opaque', 'ref', 'byteref', 'fn', 'rv'):
                 return a
             raise Unsupported('cast of %r' % (a[:1],))
         raise Unsupported('rvalue %s' % k)
@@ -774,6 +782,30 @@ class Scanner:
         ps = pred_of_callee(path)
         if ps is not None:
             return ('value', ('bool', self.apply_pred(st, ps, args[0])))
+        # ---- winnow's token parsers over &[u8] (lexical helpers of the IDL parser)
+        dpath = c.get('def') or ''
+        if dpath == 'winnow::token::literal' and args:
+            tag = self.strip_ref(st, args[0])
+            if tag[0] == 'cbytes':
+                return ('value', ('wparser', 'literal', tag[1]))
+            if tag[0] == 'bconst':
+                return ('value', ('wparser', 'literal', (tag[1],)))
+            raise Unsupported('literal(..) with a non-constant tag')
+        if dpath == 'winnow::token::take_while' and len(args) == 2:
+            rg = args[0]
+            if rg[0] == 'range' and rg[1] == 'RangeFrom' and rg[2][0] == 'int':
+                return ('value', ('wparser', 'take_while', rg[2][1], args[1]))
+            if rg[0] == 'int':
+                raise Unsupported('take_while with an exact count')
+            raise Unsupported('take_while range %r' % (rg[:2],))
+        if dpath == 'winnow::Parser::parse_next' and len(args) == 2:
+            pz = self.strip_ref(st, args[0])
+            if pz[0] == 'fn' and pz[1].split('::')[-1] in W_CLASS and pz[1].startswith('winnow::ascii::'):
+                cls, lo_ = W_CLASS[pz[1].split('::')[-1]]
+                pz = ('wparser', 'class', lo_, cls)
+            if pz[0] == 'wparser' and args[1][0] == 'ref':
+                return ('wparse', pz, args[1][1])
+            raise Unsupported('parse_next of %r' % (pz[:2],))
         sl = 'core::slice::<impl [T]>::'
         if path.startswith(sl):
             s = args[0]
@@ -804,6 +836,18 @@ class Scanner:
                 if self.int_cmp(st, 'Eq', ln, ('int', 0)):
                     return ('value', NONE)
                 return ('value', some(('tuple', (('byteref', s[1]), ('slice', s[1] + 1, s[2])))))
+            if name == 'starts_with' and len(args) == 2:
+                nd = self.strip_ref(st, args[1])
+                if nd[0] == 'cbytes':
+                    for k_, bt in enumerate(nd[1]):
+                        i_ = s[1] + k_
+                        if s[2] != 'END' and i_ >= s[2]:
+                            return ('value', ('bool', False))
+                        if s[2] == 'END' and not self.len_gt(st, i_):
+                            return ('value', ('bool', False))
+                        if not self.byte_decide(st, i_, frozenset([bt])):
+                            return ('value', ('bool', False))
+                    return ('value', ('bool', True))
             raise Unsupported('slice::%s' % name)
         # ---- iterators over byte slices
         if path.startswith(sl) and False:
@@ -949,7 +993,8 @@ class Scanner:
                 raise Panic('unwrap of Err')
         if c.get('local') or c.get('resolved_local'):
             cb = self.bodies.get(path) or self.bodies.get(c.get('def'))
-            if cb is not None:
+            root_mod = '::'.join(self.body.path.split('::')[:-1])
+            if cb is not None and (self.mode == 'name' or cb.path.startswith(root_mod + '::')):
                 return ('enter', cb, args)
         # opaque call: must not be able to mutate modelled state
         for a_op, a in zip(t['args'], args):
@@ -1098,6 +1143,14 @@ class Scanner:
                 st.frames[fi] = (body, t.get('t'), loc, dest)
                 st.frames.append((NATIVE[nm], 0, {'it': it, 'itref': itref, 'clo': clo, 'n': ('int', 0)}, cur[1]))
                 return st
+            if r[0] == 'wparse':
+                cur = self.eval_place(st, fi, t['dest'])
+                st.frames[fi] = (body, t.get('t'), loc, dest)
+                inp = self.load(st, r[2])
+                if inp[0] != 'slice' or inp[2] != 'END':
+                    raise Unsupported('parse_next on %r' % (inp[:1],))
+                st.frames.append((NATIVE['wparse'], 0, {'p': r[1], 'cell': r[2], 'start': ('int', inp[1]), 'cur': ('int', inp[1]), 'any': ('bool', False)}, cur[1]))
+                return st
             if r[0] == 'comb':
                 _, how, clo, cargs = r
                 cur = self.eval_place(st, fi, t['dest'])
@@ -1216,6 +1269,58 @@ class Scanner:
             else:
                 raise Unsupported('combinator %r' % (how,))
             return self.pop_frame(st, v)
+        if op == 'wparse':
+            pz = loc['p']
+            start, cur_ = loc['start'][1], loc['cur'][1]
+
+            def w_ok():
+                self.store(st, loc['cell'], ('slice', cur_, 'END'))
+                return self.pop_frame(st, ('adt', 'std::result::Result', 'Ok', (('slice', start, cur_),)))
+
+            def w_err():
+                return self.pop_frame(st, ('adt', 'std::result::Result', 'Err', (('opaque', frozenset()),)))
+            if pz[1] == 'literal':
+                for k_, bt in enumerate(pz[2]):
+                    if not self.len_gt(st, start + k_) or not self.byte_decide(st, start + k_, frozenset([bt])):
+                        return w_err()
+                cur_ = start + len(pz[2])
+                return w_ok()
+            if pz[1] == 'class':
+                # one byte per step so that the loop closes under the position abstraction
+                if self.len_gt(st, cur_) and self.byte_decide(st, cur_, pz[3]):
+                    loc['cur'] = ('int', cur_ + 1)
+                    loc['any'] = ('bool', True)
+                    return st
+                if pz[2] >= 1 and not loc['any'][1]:
+                    return w_err()
+                if pz[2] > 1:
+                    raise Unsupported('class parser with a minimum of %d' % pz[2])
+                return w_ok()
+            if pz[1] == 'take_while':
+                if phase == 0:
+                    if not self.len_gt(st, cur_):
+                        phase = 2
+                    else:
+                        st.frames[fi] = (nat, 1, loc, dest)
+                        self.push_closure(st, pz[3], [('byte', cur_)], ('local', fi, 'r', ()))
+                        return st
+                if phase == 1:
+                    r = loc.pop('r')
+                    if r[0] != 'bool':
+                        raise Unsupported('take_while predicate result %r' % (r[:1],))
+                    if r[1]:
+                        loc['cur'] = ('int', cur_ + 1)
+                        loc['any'] = ('bool', True)
+                        st.frames[fi] = (nat, 0, loc, dest)
+                        return st
+                    phase = 2
+                if phase == 2:
+                    if pz[2] >= 1 and not loc['any'][1]:
+                        return w_err()
+                    if pz[2] > 1:
+                        raise Unsupported('take_while with a minimum of %d' % pz[2])
+                    return w_ok()
+            raise Unsupported('winnow parser %r' % (pz[1],))
         it = loc['it']
         tw = None
         base = it
@@ -1309,6 +1414,8 @@ class Scanner:
                 visit(v[1])
             elif v[0] == 'int':
                 m = max(m, v[1])
+            elif v[0] == 'len':
+                m = max(m, -v[1])
             elif v[0] == 'slice':
                 m = max(m, v[1], v[2] if v[2] != 'END' else 0)
             elif v[0] in ('byte', 'byteref'):
@@ -1383,6 +1490,8 @@ class Scanner:
                 return tuple(kv(x) for x in v)
             if t == 'int':
                 return ('int', ki(v[1]))
+            if t == 'len':
+                return ('len', ki(-v[1])) if v[1] <= 0 else v
             if t == 'slice':
                 return ('slice', ki(v[1]), v[2] if v[2] == 'END' else ki(v[2]))
             if t in ('byte', 'byteref'):
@@ -1405,6 +1514,8 @@ class Scanner:
                 return ('range', v[1], None if v[2] is None else kv(v[2]), None if v[3] is None else kv(v[3]))
             if t == 'opaque':
                 return ('opaque', tuple(sorted((repr(kv(x)) for x in v[1]))))
+            if t == 'wparser':
+                return ('wparser',) + tuple(kv(x) if isinstance(x, tuple) and x and isinstance(x[0], str) else x for x in v[1:])
             if t == 'ref':
                 return v
             return v
@@ -1494,6 +1605,8 @@ class Scanner:
         """verdict at a return of the scanner; may need further splits (returns new work items)"""
         snap = st.clone()
         try:
+            if self.mode == 'skip':
+                return self.finish_skip(st, rv)
             if rv[0] == 'adt' and rv[1].endswith('Result') and rv[2] == 'Ok':
                 deps = self.deps(rv[3])
                 if len(deps) != 1:
@@ -1547,6 +1660,54 @@ class Scanner:
             s3.hi = e.t if s3.hi is None else min(s3.hi, e.t)
             if s3.lo <= s3.hi:
                 self.finish(s3, rv)
+
+    def finish_skip(self, st, rv):
+        """verdict at a return of a consumer (white space / comment skipper): the consumed prefix S[0..b) is in the reference language and is
+        the longest such prefix (no byte that can follow on this path extends it); an Err return is legitimate only when what was read is
+        not a viable prefix of the language"""
+        if not (rv[0] == 'adt' and rv[1].endswith('Result')):
+            raise Unsupported('return value %r' % (rv[:3],))
+        inp = st.cells[0]
+        if inp[0] != 'slice' or inp[2] != 'END':
+            raise Unsupported('input left as %r' % (inp,))
+        b = inp[1]
+        if rv[2] == 'Err':
+            # the function gave up: legitimate only if no input on this path starts with a non-empty word of the language
+            q, i = st.dfa_st, st.dfa_pos
+            if i == 0:
+                viable = self.dfa.accept[0]
+                if not viable and self.in_bounds(st, 0) is not False:
+                    viable = any(self.dfa.live[self.dfa.step(0, min(cls & self.kn(st, 0)))] for cls in self.dfa.classes if cls & self.kn(st, 0))
+            else:
+                viable = self.dfa.live[q]
+            if viable:
+                self.outcomes.append(Outcome('incomplete', st, 'returns Err although the input read so far [%s] begins a word of /%s/' % (self.describe(st), self.dfa.regex)))
+            else:
+                self.outcomes.append(Outcome('err', st, self.describe(st)))
+            return
+        if b < st.dfa_pos:
+            raise Unsupported('the input was moved back behind the window')
+        self.dfa_advance(st, b)
+        where = self.describe(st)
+        if not self.dfa.accept[st.dfa_st]:
+            self.outcomes.append(Outcome('unsound', st, 'consumes the byte sequence [%s], which is not in the language /%s/' % (where, self.dfa.regex)))
+            return
+        # a returned slice (the comment text) must end where the consumption ends
+        for d in self.deps(rv[3]):
+            if d[2] == 'END' or d[2] != b:
+                self.outcomes.append(Outcome('consume', st, 'returns S[%s..%s) but leaves the input at %d' % (d[1], d[2], b)))
+                return
+        if self.len_gt(st, b):
+            k = self.kn(st, b)
+            ext = set()
+            for cls in self.dfa.classes:
+                c = cls & k
+                if c and self.dfa.live[self.dfa.step(st.dfa_st, min(c))]:
+                    ext |= c
+            if ext:
+                self.outcomes.append(Outcome('cut', st, 'stops after [%s] although the next byte can be %s, which continues a word of /%s/' % (where, class_name(frozenset(ext)), self.dfa.regex)))
+                return
+        self.outcomes.append(Outcome('ok', st, where))
 
     def witness(self, st, min_len=0):
         """search for a stream consistent with (know, lo, hi) such that the maximal run of alphabet bytes from index 0 is accepted.
